@@ -63,10 +63,12 @@ var verifyingReaders = []string{"v2br", "inspect", "root", "rootload", "rootload
 	"inspectfast", "genindex",
 	// the key listing of a read-only store that was given its index by the caller (a detached index,
 	// say) and therefore has not scanned the payload when it was opened: the listing is the scan
-	"allkeys"}
+	"allkeys",
+	// the documented way to iterate the payload of a Reader: NewBlockReader over Reader.DataReader(), skipping
+	"v2skip-dr"}
 
 func readerNeedsReaderAt(reader string) bool {
-	return reader == "inspect" || reader == "inspectfast" || reader == "allkeys"
+	return reader == "inspect" || reader == "inspectfast" || reader == "allkeys" || reader == "v2skip-dr"
 }
 
 // scanSuppliedIndex is the index of the valid image under test, handed to the "allkeys" reader.
@@ -74,7 +76,7 @@ var scanSuppliedIndex index.Index
 
 // scanOnly readers are held to the truncation clause only; countless ones hand back no blocks.
 func scanOnly(reader string) bool {
-	return reader == "v2skip" || reader == "inspectfast" || reader == "genindex" || reader == "allkeys"
+	return reader == "v2skip" || reader == "inspectfast" || reader == "genindex" || reader == "allkeys" || reader == "v2skip-dr"
 }
 func countless(reader string) bool {
 	return reader == "inspect" || reader == "inspectfast" || reader == "genindex" || reader == "allkeys"
@@ -102,8 +104,22 @@ func scanWith(reader string, data []byte, profile string, del sim.Delivery, opts
 				}
 				res.blocks = append(res.blocks, retBlk{b.Cid(), b.RawData()})
 			}
-		case "v2skip":
-			br, err := carv2.NewBlockReader(src.(io.Reader), opts.Options()...)
+		case "v2skip", "v2skip-dr":
+			var from io.Reader
+			if reader == "v2skip-dr" {
+				rd, err := carv2.NewReader(src.(io.ReaderAt), opts.Options()...)
+				if err != nil {
+					res.constructErr = err
+					return
+				}
+				if from, err = rd.DataReader(); err != nil {
+					res.constructErr = err
+					return
+				}
+			} else {
+				from = src.(io.Reader)
+			}
+			br, err := carv2.NewBlockReader(from, opts.Options()...)
 			if err != nil {
 				res.constructErr = err
 				return
